@@ -46,6 +46,7 @@ type comparator struct {
 	steps  []cmpStep
 	errs   []string
 	keysL  []string // normalised l-side keys of the chain, in order
+	afterTable bool // the last steps came from a loop over a table of key functions
 	viol   []string
 }
 
@@ -279,9 +280,28 @@ func (c *comparator) parseBlock(p *Program, stmts []ast.Stmt, env map[string]ast
 				c.fillReturn(p, &step, ret.Results[0], env)
 				c.steps = append(c.steps, step)
 			}
+		case *ast.RangeStmt:
+			// for _, key := range TABLE { if ka, kb := key(a), key(b); ka != kb { return ka < kb } }
+			// with TABLE a package-level list of key functions: one step per entry
+			entries := keyTableEntries(c.pkg, st.X)
+			kv, isIdent := st.Value.(*ast.Ident)
+			if entries == nil || !isIdent {
+				c.errorf(st.Pos(), "unsupported statement %T in comparator", s)
+				continue
+			}
+			for _, ent := range entries {
+				local := copyEnv(env)
+				local[kv.Name] = ent
+				c.parseBlock(p, st.Body.List, local, false)
+			}
+			c.afterTable = true
 		case *ast.ReturnStmt:
 			if len(st.Results) != 1 {
 				c.errorf(st.Pos(), "return without a single result")
+				continue
+			}
+			if id, ok := st.Results[0].(*ast.Ident); ok && id.Name == "false" && top && c.afterTable && len(c.steps) > 0 && i == len(stmts)-1 {
+				// every key of the table compared equal: the elements are equivalent
 				continue
 			}
 			step := cmpStep{pos: st.Pos()}
@@ -367,7 +387,15 @@ func subst(e ast.Expr, env map[string]ast.Expr) ast.Expr {
 		for i, a := range x.Args {
 			args[i] = subst(a, env)
 		}
-		return &ast.CallExpr{Fun: subst(x.Fun, env), Args: args}
+		fun := subst(x.Fun, env)
+		// a key function bound to the loop variable of a key table: its body, with the
+		// parameter replaced by the argument
+		if fl, ok := fun.(*ast.FuncLit); ok && len(args) == 1 && fl.Type.Params != nil && len(fl.Type.Params.List) == 1 && len(fl.Type.Params.List[0].Names) == 1 && len(fl.Body.List) == 1 {
+			if ret, ok := fl.Body.List[0].(*ast.ReturnStmt); ok && len(ret.Results) == 1 {
+				return subst(ret.Results[0], map[string]ast.Expr{fl.Type.Params.List[0].Names[0].Name: args[0]})
+			}
+		}
+		return &ast.CallExpr{Fun: fun, Args: args}
 	case *ast.BinaryExpr:
 		return &ast.BinaryExpr{X: subst(x.X, env), Op: x.Op, Y: subst(x.Y, env)}
 	case *ast.UnaryExpr:
@@ -458,7 +486,7 @@ func (c *comparator) check(p *Program) (viol []string, undecided []string) {
 		}
 		c.keysL = append(c.keysL, rl)
 	}
-	if n := len(c.steps); n > 0 && c.steps[n-1].guardL != nil {
+	if n := len(c.steps); n > 0 && c.steps[n-1].guardL != nil && !c.afterTable {
 		undecided = append(undecided, "chain does not end in an unconditional return")
 	}
 	return
@@ -519,12 +547,24 @@ func (c *Check) totalityRules(parsed map[*ssa.Function]*comparator) {
 		var out []string
 		for _, k := range cm.keysL {
 			if strings.HasPrefix(k, "→") && depth < 4 {
-				name := k[len("→"):strings.Index(k, "(")]
-				arg := k[strings.Index(k, "(")+1 : len(k)-1]
+				name := k[len("→"):strings.LastIndex(k, "(")]
+				arg := k[strings.LastIndex(k, "(")+1 : len(k)-1]
+				var t *comparator
+				if m := convMethodRE.FindStringSubmatch(name); m != nil {
+					// T(x).Less: the method of the other sorter type the value is converted to
+					for f, other := range parsed {
+						if other != cm && strings.HasSuffix(fnName(f), "."+m[1]+")."+m[2]) {
+							t = other
+						}
+					}
+				}
 				if strings.Contains(name, ".") {
 					name = name[strings.LastIndex(name, ".")+1:]
 				}
-				if t := resolve(cm, name); t != nil {
+				if t == nil {
+					t = resolve(cm, name)
+				}
+				if t != nil {
 					for _, tk := range chainKeys(t, depth+1) {
 						out = append(out, strings.ReplaceAll(tk, "·", arg))
 					}
@@ -938,4 +978,66 @@ func expandKeyHelper(p *Program, cm *comparator, key string) string {
 		}
 	}
 	return key
+}
+
+var convMethodRE = regexp.MustCompile(`^(\w+)\(\w+\)\.(\w+)$`)
+
+// keyTableEntries: x names a package-level list (array or slice literal) of key functions;
+// returns the entries as function literals (named functions are replaced by a literal with
+// their body), nil when x is something else.
+func keyTableEntries(pkg *packages.Package, x ast.Expr) []ast.Expr {
+	id, ok := x.(*ast.Ident)
+	if !ok || pkg == nil {
+		return nil
+	}
+	obj, ok := pkg.TypesInfo.Uses[id].(*types.Var)
+	if !ok || obj.Parent() != pkg.Types.Scope() {
+		return nil
+	}
+	var lit *ast.CompositeLit
+	funcs := map[string]*ast.FuncDecl{}
+	for _, file := range pkg.Syntax {
+		for _, d := range file.Decls {
+			switch dd := d.(type) {
+			case *ast.FuncDecl:
+				if dd.Recv == nil {
+					funcs[dd.Name.Name] = dd
+				}
+			case *ast.GenDecl:
+				for _, sp := range dd.Specs {
+					vs, ok := sp.(*ast.ValueSpec)
+					if !ok {
+						continue
+					}
+					for i, n := range vs.Names {
+						if pkg.TypesInfo.Defs[n] == obj && i < len(vs.Values) {
+							lit, _ = vs.Values[i].(*ast.CompositeLit)
+						}
+					}
+				}
+			}
+		}
+	}
+	if lit == nil || len(lit.Elts) == 0 {
+		return nil
+	}
+	var out []ast.Expr
+	for _, e := range lit.Elts {
+		if kv, ok := e.(*ast.KeyValueExpr); ok {
+			e = kv.Value
+		}
+		switch v := e.(type) {
+		case *ast.FuncLit:
+			out = append(out, v)
+		case *ast.Ident:
+			fd := funcs[v.Name]
+			if fd == nil || fd.Body == nil {
+				return nil
+			}
+			out = append(out, &ast.FuncLit{Type: fd.Type, Body: fd.Body})
+		default:
+			return nil
+		}
+	}
+	return out
 }
